@@ -267,6 +267,8 @@ def build(chk):
             if k == 0 and not chk.undecided:
                 chk.engine_error('C17.%s.d%d: no returning path' % (vt, d))
     build_sampling(chk)
+    from . import C16
+    C16.build_helpers(chk, prefix='C17', parts=('edge_likelihood',))
     chk.assumptions += ['d = %s, full depth (truncated = d), %d paths (every ordering of the taus); n >= 2 rows, non-constant '
                         'columns; u in (0,1)^d; reals not floats' % (dims, npaths)]
 
